@@ -33,6 +33,12 @@ def run_property(prop: str, tier: str, seed: int, only: Optional[str] = None,
                 meta[k] = list(meta[k]) + [x for x in v if x not in meta[k]]
             else:
                 meta[k] = v
+    # 1b. static obligations (exact evaluation of extracted program data)
+    from pyvc.static import run_static
+    for r in run_static(prop):
+        if only and only not in r.id:
+            continue
+        results.append(r)
     # 2. bounded side
     try:
         bm = importlib.import_module(f'bounded.{prop.lower()}')
@@ -63,6 +69,9 @@ def make(prop: str, **meta):
         if '.B.contract-twin.' in ob_id:
             from pyvc.replay import replay_obligation as rp
             return rp(ob_id, doc)
+        if '.S.' in ob_id:
+            from pyvc.static import replay_static
+            return replay_static(ob_id)
         if '.B.' in ob_id:
             mods = []
             for name in (f'bounded.{prop.lower()}', f'bounded.extra_{prop.lower()}'):
